@@ -13,7 +13,9 @@ CONSTANTS MaxOps
 
 WorktreeOps == {"AddFile", "AddDir", "AddAll", "AddGlob", "Remove", "Move", "Commit", "ResetSparse", "ResetHard",
                 "ResetFiles", "Checkout", "CheckoutSparse", "Status"}
-ExternalOps == {"ExtSize", "ExtMtime", "ExtBoth", "ExtRemove"}     \* only the size changes / only the mtime / both / the file is deleted
+\* only the size changes / only the mtime (by whole seconds) / only the mtime and only below one second (same second,
+\* other nanoseconds: mtimes have sub-second resolution) / both / the file is deleted
+ExternalOps == {"ExtSize", "ExtMtime", "ExtSubsec", "ExtBoth", "ExtRemove"}
 Writes(o) == o # "Status"
 
 VARIABLES disk, view, hist, failed
